@@ -16,11 +16,11 @@ Ltac params :=
   cbv beta iota delta [ref_match ref_match_multi ref_unique asfound_unique ref_rem_dup
     mp_presorted_default mp_el_index mp_classes mp_str_then mp_str_else mp_empty_op1 mp_empty_k1 mp_empty_conn
     mp_empty_op2 mp_empty_k2 mp_empty_err mp_uniq_op mp_uniq_err mp_sort_if_not mp_side mp_clamp_conn mp_clamp_op
-    mp_bad_op mp_clamp_minus mp_filter_if_not mp_eq_sorted mp_eq_presorted mp_el_first mm_presorted_default mm_pass
+    mp_bad_op mp_clamp_minus mp_filter_if_not mp_eq_sorted mp_eq_presorted mp_el_first mp_f_sorted mp_r_sorted mp_f_presorted mp_r_presorted mp_ret_swap mm_presorted_default mm_pass
     up_values_default up_val_start up_keep0_pos up_keep0_start up_i0 up_nkeep0 up_while_op up_ne_op up_nkeep_step
     up_i_step up_slice_lo up_slice_plus up_values_if_not rp_values_default rp_single_op rp_single_k rp_single_if_not
     rp_single_ret_v rp_single_ret rp_nkeep0 rp_val0 rp_f0 rp_range_lo rp_ne_op rp_flag_op rp_nkeep_step rp_slice_lo
-    rp_slice_plus rp_values_if_not u_pinned r_pinned].
+    rp_slice_plus rp_values_if_not rp_keep_new_via_s rp_keep_upd_via_s rp_sort_result u_pinned r_pinned].
 
 Section Tie.
   Variable A : Type.
@@ -48,7 +48,7 @@ Section Tie.
   Qed.
 
   Lemma rd_loop_g_ref rest : forall val f cur acc,
-    rd_loop_g ltb eqb CNe CGt val f cur acc rest = rd_loop eqb val f cur acc rest.
+    rd_loop_g ltb eqb (fun i => i) (fun i => i) CNe CGt val f cur acc rest = rd_loop eqb val f cur acc rest.
   Proof.
     induction rest as [|[i [x fx]] t IH]; intros val f cur acc; [reflexivity|].
     cbn [rd_loop_g rd_loop cmp_A cmp_Z]. destruct (eqb x val); cbn [negb]; [|apply IH].
@@ -76,13 +76,13 @@ Section Tie.
     change (cmp_A ltb eqb CGt (maxl ltb d2 (d2 :: t2)) (maxl ltb d1 (d1 :: t1)))
       with (ltb (maxl ltb d1 (d1 :: t1)) (maxl ltb d2 (d2 :: t2))).
     change (search ltb SLeft) with (count_lt ltb).
-    destruct p; cbn [xorb negb bind].
+    destruct p; cbn [xorb negb bind eval_ix].
     - destruct (ogather (d1 :: t1) _) as [vals|e]; [|reflexivity]. cbn [bind].
       rewrite cmp_mask_eq. reflexivity.
     - destruct (ogather (d1 :: t1) st) as [view|e]; [|reflexivity]. cbn [bind].
       destruct (ogather st _) as [i1|e]; [|reflexivity]. cbn [bind].
       destruct (ogather (d1 :: t1) i1) as [vals|e]; [|reflexivity]. cbn [bind].
-      rewrite cmp_mask_eq. reflexivity.
+      rewrite cmp_mask_eq. destruct (ogather _ (where_ _)); reflexivity.
   Qed.
 
   Lemma skel_match_multi k p a1 a2 :
@@ -230,21 +230,24 @@ Lemma skel_sensitive :
   let set_side P := mkM (mp_presorted_default P) (mp_el_index P) (mp_classes P) (mp_str_then P) (mp_str_else P)
         (mp_empty_op1 P) (mp_empty_k1 P) (mp_empty_conn P) (mp_empty_op2 P) (mp_empty_k2 P) (mp_empty_err P)
         (mp_uniq_op P) (mp_uniq_err P) (mp_sort_if_not P) SRight (mp_clamp_conn P) (mp_clamp_op P) (mp_bad_op P)
-        (mp_clamp_minus P) (mp_filter_if_not P) (mp_eq_sorted P) (mp_eq_presorted P) (mp_el_first P) in
+        (mp_clamp_minus P) (mp_filter_if_not P) (mp_eq_sorted P) (mp_eq_presorted P) (mp_el_first P)
+        (mp_f_sorted P) (mp_r_sorted P) (mp_f_presorted P) (mp_r_presorted P) (mp_ret_swap P) in
   let set_clamp_op P := mkM (mp_presorted_default P) (mp_el_index P) (mp_classes P) (mp_str_then P) (mp_str_else P)
         (mp_empty_op1 P) (mp_empty_k1 P) (mp_empty_conn P) (mp_empty_op2 P) (mp_empty_k2 P) (mp_empty_err P)
         (mp_uniq_op P) (mp_uniq_err P) (mp_sort_if_not P) (mp_side P) (mp_clamp_conn P) CLt (mp_bad_op P)
-        (mp_clamp_minus P) (mp_filter_if_not P) (mp_eq_sorted P) (mp_eq_presorted P) (mp_el_first P) in
+        (mp_clamp_minus P) (mp_filter_if_not P) (mp_eq_sorted P) (mp_eq_presorted P) (mp_el_first P)
+        (mp_f_sorted P) (mp_r_sorted P) (mp_f_presorted P) (mp_r_presorted P) (mp_ret_swap P) in
   let set_uniq_op P := mkM (mp_presorted_default P) (mp_el_index P) (mp_classes P) (mp_str_then P) (mp_str_else P)
         (mp_empty_op1 P) (mp_empty_k1 P) (mp_empty_conn P) (mp_empty_op2 P) (mp_empty_k2 P) (mp_empty_err P)
         CGt (mp_uniq_err P) (mp_sort_if_not P) (mp_side P) (mp_clamp_conn P) (mp_clamp_op P) (mp_bad_op P)
-        (mp_clamp_minus P) (mp_filter_if_not P) (mp_eq_sorted P) (mp_eq_presorted P) (mp_el_first P) in
+        (mp_clamp_minus P) (mp_filter_if_not P) (mp_eq_sorted P) (mp_eq_presorted P) (mp_el_first P)
+        (mp_f_sorted P) (mp_r_sorted P) (mp_f_presorted P) (mp_r_presorted P) (mp_ret_swap P) in
   zm ref_match ClsNum false a1 a2 = good
   /\ zm (set_side ref_match) ClsNum false a1 a2 <> good
   /\ zm (set_clamp_op ref_match) ClsNum false a1 a2 = Err EIndex
   /\ zm (set_uniq_op ref_match) ClsNum false [3; 1; 3]%Z a2 <> Err EValue
   /\ rem_dup_call_g zltb zeqb ref_rem_dup [1; 0; 2; 3] [5; 1; 5; 5]%Z [3; 2; 3; 1]%Z false = Ok (false, [0; 1], None)
-  /\ rem_dup_call_g zltb zeqb (mkR false CEq 1 false 0 0 0 0 0 1 CNe CGe 1 0 1 false)
+  /\ rem_dup_call_g zltb zeqb (mkR false CEq 1 false 0 0 0 0 0 1 CNe CGe 1 0 1 false false false true)
                     [1; 0; 2; 3] [5; 1; 5; 5]%Z [3; 2; 3; 1]%Z false = Ok (false, [1; 2], None).
 Proof. cbv zeta. repeat split; try (vm_compute; reflexivity); intro H; vm_compute in H; discriminate H. Qed.
 
@@ -252,7 +255,8 @@ Proof. cbv zeta. repeat split; try (vm_compute; reflexivity); intro H; vm_comput
    empty first array is rejected with ValueError instead of dying with IndexError; on non-empty
    arrays the order is irrelevant *)
 Definition ref_match_guard_first : mparams :=
-  mkM false 0 (mkCls true true) true false CEq 0 COr CEq 0 EValue CNe EValue true SLeft COr CGt CEq 1 true CEq CEq false.
+  mkM false 0 (mkCls true true) true false CEq 0 COr CEq 0 EValue CNe EValue true SLeft COr CGt CEq 1 true CEq CEq false
+      (XAt XSt1 XSub1) (XAt XSt1 (XAt XSub1 XSub2)) XSub1 (XAt XSub1 XSub2) false.
 Lemma skel_statement_order {A} (ltb eqb : A -> A -> bool) k p st a1 a2 :
   match_g ltb eqb ref_match k p st [] a2 = Err EIndex
   /\ match_g ltb eqb ref_match_guard_first k p st [] a2 = Err EValue
@@ -263,3 +267,20 @@ Proof.
     mp_empty_op2 mp_empty_k2 mp_empty_err cmp_nat length Nat.eqb orb].
   destruct (length a2 =? 0); reflexivity.
 Qed.
+
+(* the translated expressions matter as well: result not sorted without `s.sort()`; an index taken
+   in the wrong coordinates (`keep[nkeep] = s[i]`); `arr1[sub1]` where `arr1[st1[sub1]]` is meant;
+   the two returned arrays swapped *)
+Lemma skel_sensitive_expressions :
+  rem_dup_call_g zltb zeqb ref_rem_dup [2; 0; 1] [5; 7; 1]%Z [0; 0; 0]%Z false = Ok (false, [0; 1; 2], None)
+  /\ rem_dup_call_g zltb zeqb (mkR false CEq 1 false 0 0 0 0 0 1 CNe CGt 1 0 1 false false false false)
+       [2; 0; 1] [5; 7; 1]%Z [0; 0; 0]%Z false = Ok (false, [2; 0; 1], None)
+  /\ rem_dup_call_g zltb zeqb (mkR false CEq 1 false 0 0 0 0 0 1 CNe CGt 1 0 1 false true false true)
+       [2; 0; 1] [5; 7; 1]%Z [0; 0; 0]%Z false <> Ok (false, [0; 1; 2], None)
+  /\ zm (mkM false 0 (mkCls true true) true false CEq 0 COr CEq 0 EValue CNe EValue true SLeft COr CGt CEq 1 true CEq CEq true
+           XSub1 (XAt XSt1 (XAt XSub1 XSub2)) XSub1 (XAt XSub1 XSub2) false) ClsNum false [3; 1; 2]%Z [2; 2; 7; -1; 3]%Z
+     <> Ok ([2; 2; 0], [0; 1; 4])
+  /\ zm (mkM false 0 (mkCls true true) true false CEq 0 COr CEq 0 EValue CNe EValue true SLeft COr CGt CEq 1 true CEq CEq true
+           (XAt XSt1 XSub1) (XAt XSt1 (XAt XSub1 XSub2)) XSub1 (XAt XSub1 XSub2) true) ClsNum false [3; 1; 2]%Z [2; 2; 7; -1; 3]%Z
+     = Ok ([0; 1; 4], [2; 2; 0]).
+Proof. repeat split; try (vm_compute; reflexivity); intro H; vm_compute in H; discriminate H. Qed.
